@@ -1799,6 +1799,9 @@ func Expire() int {
 	}
 
 	count := count()
+	if count == 0 {
+		return 0
+	}
 	fair := low / int64(count)
 
 	bigcount := 0
@@ -1813,6 +1816,9 @@ func Expire() int {
 		return true
 	})
 
+	if bigcount == 0 {
+		return 0
+	}
 	fair2 := (low - smallspace) / int64(bigcount)
 
 	Range(func(h hash.Hash, t *Torrent) bool {
